@@ -25,7 +25,8 @@ extern std::atomic<long> g_time_value;
 
 std::string Action::str() const {
     static const char* n[] = {"run", "publish", "subscribe", "unsubscribe", "cancel", "disconnect", "destroy", "signal",
-                              "broker_publish", "net_kill", "spurious_ack", "hostile_bytes", "set_silent", "custom"};
+                              "broker_publish", "net_kill", "spurious_ack", "hostile_bytes", "set_silent", "custom",
+                              "s_open", "s_read", "s_write", "s_shutdown", "s_cancel", "s_close", "s_trigger"};
     std::ostringstream o;
     if (chained) o << "+chained ";
     else if (handler_index >= 0) o << "@handler#" << handler_index << " ";
@@ -74,6 +75,7 @@ std::string with_tag(std::string s, const std::string& tag) { size_t p = s.find(
 struct App : AppSink {
     World& w; Broker& b; const Scenario& sc; Run& run;
     std::unique_ptr<IClient> cl;
+    std::unique_ptr<IReconn> rs;
     int depth = 0;
     int incarnation = 0;
     bool terminal = false;          // terminal call made in the current incarnation
@@ -83,7 +85,10 @@ struct App : AppSink {
     int last_run_incarnation = -1;
     std::map<int, int> disconnect_incarnation;
 
-    App(World& w, Broker& b, const Scenario& sc, Run& run, asio::io_context& ioc) : w(w), b(b), sc(sc), run(run), cl(make_client(ioc, *this)) {}
+    App(World& w, Broker& b, const Scenario& sc, Run& run, asio::io_context& ioc) : w(w), b(b), sc(sc), run(run) {
+        if (sc.stream_mode == 2) rs = make_reconnect_probe(ioc, *this); else if (sc.stream_mode) rs = make_reconn(ioc, *this); else cl = make_client(ioc, *this);
+    }
+    void on_io_done(int op, error_code ec, std::size_t n) override { auto* r = done(op, ec); if (r->completions == 1) r->rcs = {uint8_t(n > 255 ? 255 : n)}; }
 
     OpRec& new_op(OpKind k) {
         OpRec r; r.id = (int)w.h.ops.size(); r.kind = k; r.seq_init = w.next_seq(); r.t_init = w.now(); r.incarnation = incarnation; r.after_terminal = terminal;
@@ -135,7 +140,44 @@ struct App : AppSink {
         ++depth; cl->receive(r.id, false); --depth;
     }
 
+    bool busy(OpKind k) const { for (auto& o : w.h.ops) if (o.kind == k && !o.completions) return true; return false; }
+
+    int exec_stream(const Action& a) {
+        int op = -1;
+        switch (a.kind) {
+            case Action::s_open: rs->open(); break;
+            // like the client's own use of the stream: at most one read, one write and one shutdown outstanding
+            case Action::s_read: { if (busy(OpKind::s_read) || terminal) break; auto& r = new_op(OpKind::s_read); op = r.id; ++depth; rs->read(op, a.timeout_ms, a.with_slot); --depth; break; }
+            case Action::s_write: { if (busy(OpKind::s_write) || terminal) break; auto& r = new_op(OpKind::s_write); op = r.id; r.payload = a.payload; ++depth; rs->write(op, a.payload, a.with_slot); --depth; break; }
+            case Action::s_shutdown: { if (busy(OpKind::s_shutdown) || terminal) break; auto& r = new_op(OpKind::s_shutdown); op = r.id; ++depth; rs->shutdown(op, a.with_slot); --depth; break; }
+            case Action::s_cancel:
+                w.log(Ev::terminal, -1, 0, 0, "stream cancel()+close()");
+                terminal = true; w.terminal_called = true; ++incarnation;
+                ++depth; rs->cancel(); rs->close(); --depth;
+                expect_drain = true;
+                break;
+            case Action::s_close: ++depth; rs->close(); --depth; break;
+            case Action::s_trigger: { if (terminal) break; auto& r = new_op(OpKind::s_write); op = r.id; r.tag = "trigger"; ++depth; rs->trigger(op, a.with_slot); --depth; break; }
+            case Action::signal: {
+                if (a.target < 0 || a.target >= (int)run.script_op.size()) break;
+                int t = run.script_op[a.target];
+                if (t < 0 || w.h.ops[t].completions) break;
+                auto& r = w.h.ops[t]; r.signalled = true; r.seq_signal = w.next_seq(); r.signal_type = int(a.sig);
+                w.log(Ev::signal, t, int(a.sig));
+                ++depth; rs->emit_signal(t, a.sig); --depth;
+                break;
+            }
+            case Action::net_kill:
+                if (auto c = b.current()) { w.log(Ev::fault, c->id, -1, 0, "scripted connection loss"); error_code ec = w.reconnectable_error(a.ec); w.kill(c, ec, ec == asio::error::eof ? error_code(asio::error::broken_pipe) : ec, "scripted kill"); }
+                break;
+            case Action::custom: if (a.fn) a.fn(); break;
+            default: break;
+        }
+        return op;
+    }
+
     int exec(const Action& a) {
+        if (sc.stream_mode) return exec_stream(a);
         int op = -1;
         switch (a.kind) {
             case Action::run: {
@@ -263,7 +305,7 @@ std::unique_ptr<Execution> execute(const Scenario& sc) {
 
     auto* ioc = new asio::io_context(1);
     auto* app = new App(w, br, sc, run, *ioc);
-    app->cl->configure(sc.ccfg);
+    if (sc.stream_mode) app->rs->configure(sc.ccfg.brokers, sc.ccfg.default_port, sc.ccfg); else app->cl->configure(sc.ccfg);
 
     // runs script entry i and the entries chained to it; in_handler entries are executed from a posted handler
     std::function<void(size_t)> run_entry = [app, &run, &sc, ioc, &run_entry](size_t i) {
@@ -391,7 +433,8 @@ std::unique_ptr<Execution> execute(const Scenario& sc) {
     // final phase: cancel + destroy, then the context must run out of work without the clock advancing
     if (ok && sc.final_cancel) {
         w.log(Ev::note, -1, -1, 0, "final phase");
-        if (app->cl->alive()) {
+        if (sc.stream_mode) { Action c; c.kind = Action::s_cancel; app->exec(c); }
+        else if (app->cl->alive()) {
             Action c; c.kind = Action::cancel; app->exec(c);
             Action d; d.kind = Action::destroy; app->exec(d);
         }
